@@ -426,3 +426,36 @@ Definition gk_typed (k : gk) (v : oval) : bool :=
   end.
 Lemma get_rules_typed_default : forallb (fun '(_, k, f) => gk_typed k (default_opts f)) get_rules = true.
 Proof. vm_compute. reflexivity. Qed.
+
+(* ---------- get after set for the other numeric options: the value read back is the value written ---------- *)
+Theorem hwm_get_after_set o v : 0 <= v <= 2147483647 ->
+  (exists o', apply_opt o SNDHWM (i32_bytes v) = inl o' /\ retrieve_opt o' SNDHWM = GOk (i32_bytes v)) /\
+  (exists o', apply_opt o RCVHWM (i32_bytes v) = inl o' /\ retrieve_opt o' RCVHWM = GOk (i32_bytes v)).
+Proof.
+  intros H. split.
+  - rule_of SNDHWM (R SNDHWM (KI32Max 0 false) F_sndhwm []). rewrite i32_roundtrip by (unfold i32r; lia).
+    eexists. split; [reflexivity|]. unfold retrieve_opt, retrieve_with.
+    change (find _ get_rules) with (Some (SNDHWM, GUsizeI32, F_sndhwm)). cbv beta iota. unfold oget. rewrite oset_same.
+    cbn [run_gk]. rewrite Z.max_l by lia. now rewrite as_i32_id by (unfold i32r; lia).
+  - rule_of RCVHWM (R RCVHWM (KI32Max 0 false) F_rcvhwm []). rewrite i32_roundtrip by (unfold i32r; lia).
+    eexists. split; [reflexivity|]. unfold retrieve_opt, retrieve_with.
+    change (find _ get_rules) with (Some (RCVHWM, GUsizeI32, F_rcvhwm)). cbv beta iota. unfold oget. rewrite oset_same.
+    cbn [run_gk]. rewrite Z.max_l by lia. now rewrite as_i32_id by (unfold i32r; lia).
+Qed.
+(* a negative high-water mark is clamped: it reads back as 0 *)
+Theorem hwm_negative_reads_zero o v : -2147483648 <= v < 0 ->
+  exists o', apply_opt o SNDHWM (i32_bytes v) = inl o' /\ retrieve_opt o' SNDHWM = GOk (i32_bytes 0).
+Proof.
+  intros H. rule_of SNDHWM (R SNDHWM (KI32Max 0 false) F_sndhwm []). rewrite i32_roundtrip by (unfold i32r; lia).
+  eexists. split; [reflexivity|]. unfold retrieve_opt, retrieve_with.
+  change (find _ get_rules) with (Some (SNDHWM, GUsizeI32, F_sndhwm)). cbv beta iota. unfold oget. rewrite oset_same.
+  cbn [run_gk]. rewrite Z.max_r by lia. reflexivity.
+Qed.
+Theorem maxmsgsize_get_after_set o v : -1 <= v <= 9223372036854775807 ->
+  exists o', apply_opt o MAXMSGSIZE (i64_bytes v) = inl o' /\ retrieve_opt o' MAXMSGSIZE = GOk (i64_bytes v).
+Proof.
+  intros H. rule_of MAXMSGSIZE (R MAXMSGSIZE KMaxMsg F_maxmsgsize []). rewrite i64_roundtrip by (unfold i64r; lia).
+  unfold parse_maxmsgsize. destruct (Z.ltb_spec v (-1)); [lia|].
+  eexists. split; [reflexivity|]. unfold retrieve_opt, retrieve_with.
+  change (find _ get_rules) with (Some (MAXMSGSIZE, GI64, F_maxmsgsize)). cbv beta iota. unfold oget. now rewrite oset_same.
+Qed.
